@@ -282,6 +282,8 @@ thread_local! {
     pub static TOKIO_INPUTS: std::cell::RefCell<Vec<Vec<String>>> = std::cell::RefCell::new(Vec::new());
     pub static TOKIO_EVERY: std::cell::Cell<u64> = std::cell::Cell::new(0);
     static TOKIO_COUNTER: std::cell::Cell<u64> = std::cell::Cell::new(0);
+    /// number of requests in the stream of the connection being emitted (set by the generators; 1 for C04's single requests)
+    pub static NREQ: std::cell::Cell<usize> = std::cell::Cell::new(1);
 }
 
 fn tokio_exe() -> Option<std::path::PathBuf> {
@@ -325,14 +327,19 @@ pub fn emit_conn(out: &mut Out, cfg: &str, timeout: bool, events: &[String], pee
         format!("{}|{}", peer.0, peer.1),
         ip_oracle(all_bytes),
     ];
-    // a share of the plain connections (no timeout, no idle gap, no upgrade) is repeated on the tokio runtime
+    let r = exec(&f).unwrap_or_else(|| "UNSUPPORTED".into());
+    let nresp = r.split("] D[").next().map(|w| if w == "W[" { 0 } else { w.matches(';').count() + 1 }).unwrap_or(0);
+    // a share of the plain connections (no timeout, no idle gap, no upgrade) is repeated on the tokio runtime, over a real
+    // socket. Only streams the server reads to the end qualify (every request answered, or all but a panicking last one):
+    // when a server closes a socket with unread bytes in it the kernel answers with RST, and what the CLIENT then still
+    // receives of the responses already written is a race of the transport, not behaviour of the server.
     let every = TOKIO_EVERY.with(|e| e.get());
-    if every > 0 && !timeout && tag != "idle" && tag != "ws" && tag != "split" && tag != "bytewise" {
+    let nreq = NREQ.with(|n| n.get());
+    let read_to_end = nresp == nreq || (r.ends_with("X[panic]") && nresp + 1 == nreq);
+    if every > 0 && !timeout && read_to_end && tag != "idle" && tag != "pause-inside" && tag != "ws" && tag != "split" && tag != "bytewise" {
         let n = TOKIO_COUNTER.with(|c| { c.set(c.get() + 1); c.get() });
         if n % every == 0 { TOKIO_INPUTS.with(|t| t.borrow_mut().push(f.clone())); }
     }
-    let r = exec(&f).unwrap_or_else(|| "UNSUPPORTED".into());
-    let nresp = r.split("] D[").next().map(|w| if w == "W[" { 0 } else { w.matches(';').count() + 1 }).unwrap_or(0);
     out.count(&format!("{}:responses={}", tag, nresp.min(7)));
     if r.ends_with("X[panic]") { out.count("handler-panic"); }
     let fr: Vec<&str> = f.iter().map(|s| s.as_str()).collect();
@@ -393,6 +400,7 @@ pub fn gen(out: &mut Out, thorough: bool, seed: u64) {
             }
         }
         let all: Vec<u8> = reqs.concat();
+        NREQ.with(|n| n.set(reqs.len()));
         let timeout = rng.chance(1, 3);
         let peer = ("127.0.0.1", 40000u16);
         let nt = reqs.len() >= 2;
@@ -421,6 +429,22 @@ pub fn gen(out: &mut Out, thorough: bool, seed: u64) {
             if k == reqs.len() { ev.push("i".into()); }
             emit_conn(out, &cfg, true, &ev, peer, &all, "idle", nt);
         }
+        // (d') a pause longer than the timeout INSIDE a request (between two of its segments), timeout configured: the
+        // wait for the rest of a request that has begun is not an idle wait, the request must still be answered
+        if rng.chance(1, 2) && all.len() >= 2 {
+            let cut = 1 + rng.below(all.len() as u64 - 1) as usize;
+            let mut ev = vec![format!("d{}", hex(&all[..cut])), "i".to_string(), format!("d{}", hex(&all[cut..]))];
+            if rng.chance(1, 3) {
+                // and a second pause further on
+                let rest = &all[cut..];
+                if rest.len() >= 2 {
+                    let c2 = 1 + rng.below(rest.len() as u64 - 1) as usize;
+                    ev = vec![format!("d{}", hex(&all[..cut])), "i".to_string(), format!("d{}", hex(&rest[..c2])), "i".to_string(),
+                              format!("d{}", hex(&rest[c2..]))];
+                }
+            }
+            emit_conn(out, &cfg, true, &ev, peer, &all, "pause-inside", nt);
+        }
         // (e) every single split point for short streams
         if all.len() <= 160 && rng.chance(1, 6) {
             for cut in 1..all.len() {
@@ -430,6 +454,7 @@ pub fn gen(out: &mut Out, thorough: bool, seed: u64) {
         }
     }
     // websocket upgrade requests
+    NREQ.with(|n| n.set(1));
     for (t, host) in [("/ws", ""), ("/nows", ""), ("/ws?x", "Host: a.example.com\r\n")] {
         let b = format!("GET {} HTTP/1.1\r\n{}Upgrade: websocket\r\nConnection: Upgrade\r\n\r\n", t, host).into_bytes();
         emit_conn(out, &cfg, false, &[format!("d{}", hex(&b))], ("127.0.0.1", 40000), &b, "ws", true);
